@@ -6,7 +6,7 @@ from specs.inv import *
 from specs.retry import *
 from specs.acks import *
 
-KEEP_PURGE = KEEP0 + ['g_base', 'g_addr', 'g_firing', 'id', 'deferred', 'msgId', 'retries', 'qos', 'topic', 'retain', 'payload', 'encoded', 'dup',
+KEEP_PURGE = KEEP0 + ['alarm', 'g_base', 'g_addr', 'g_firing', 'id', 'deferred', 'msgId', 'retries', 'qos', 'topic', 'retain', 'payload', 'encoded', 'dup',
                       'alarm', 'interval', 't_status', 't_fn', 't_arg', 't_owner', 't_delay', 'q_pos', 'initial', 'factor',
                       'bandwith', 'maxDelay', '_value', '_k', 'd_owner', 'tr_out', 'tr_aborts', 'tr_closes', '$dq', '$dqh', '$dqt']
 
@@ -69,6 +69,7 @@ def _():
     invariant(inv_U(self))
     invariant(inv_X(self))
     invariant(inv_Q(self))
+    invariant(conn_timers_ok(self))
     invariant(forall(lambda k: implies(old(contains(W(self), k)) and pos_of(keys, k) < idx and old(is_none(W(self)[k].alarm)),
                                        not contains(W(self), k) and failed_with(old(W(self)[k]), reason))))
     invariant(forall(lambda k: implies(old(contains(W(self), k)) and (pos_of(keys, k) >= idx or not old(is_none(W(self)[k].alarm))),
@@ -93,6 +94,7 @@ def _():
     invariant(inv_U(self))
     invariant(inv_X(self))
     invariant(inv_Q(self))
+    invariant(conn_timers_ok(self))
     invariant(forall(lambda k: implies(old(contains(W(self), k)) and old(is_none(W(self)[k].alarm)),
                                        not contains(W(self), k) and failed_with(old(W(self)[k]), reason))))
     invariant(forall(lambda k: implies(old(contains(W(self), k)) and not old(is_none(W(self)[k].alarm)),
@@ -147,7 +149,7 @@ def _(self: Ref['mqtt.client.pubsubs.MQTTProtocol']):
     ensures(forall(lambda k: implies(contains(R(self), k) and not old(is_none(R(self)[k].alarm)),
                                      R(self)[k].alarm == old(R(self)[k].alarm) and R(self)[k].encoded == old(R(self)[k].encoded))))
     ensures(len(out(self)) >= len(old(out(self))))
-    ensures(unchanged(self._pingReq.alarm))
+    ensures(unchanged(self._pingReq.alarm) and conn_untouched(self))
     ensures(same_containers(self))
     ensures(forall(lambda k: contains(S(self), k) == old(contains(S(self), k)) and S(self)[k] == old(S(self)[k])))
     ensures(forall(lambda k: contains(U(self), k) == old(contains(U(self), k)) and U(self)[k] == old(U(self)[k])))
@@ -160,6 +162,7 @@ def _(self: Ref['mqtt.client.pubsubs.MQTTProtocol']):
 @loop('mqtt.client.pubsubs.MQTTProtocol._syncSession', 0)
 def _():
     invariant(is_obj(self.addr))
+    invariant(conn_untouched(self))
     invariant(wf_proto(self) and distinct_containers(self) and is_list_bytes(self.transport.tr_out))
     invariant(inv_W(self))
     invariant(inv_R(self))
@@ -167,6 +170,7 @@ def _():
     invariant(inv_U(self))
     invariant(inv_X(self))
     invariant(inv_Q(self))
+    invariant(conn_timers_ok(self))
     invariant(forall(lambda k: contains(W(self), k) == old(contains(W(self), k)) and W(self)[k] == old(W(self)[k])))
     invariant(forall(lambda k: contains(R(self), k) == old(contains(R(self), k)) and R(self)[k] == old(R(self)[k])))
     invariant(forall(lambda k: contains(S(self), k) == old(contains(S(self), k)) and S(self)[k] == old(S(self)[k])))
@@ -190,6 +194,7 @@ def _():
 @loop('mqtt.client.pubsubs.MQTTProtocol._syncSession', 1)
 def _():
     invariant(is_obj(self.addr))
+    invariant(conn_untouched(self))
     invariant(wf_proto(self) and distinct_containers(self) and is_list_bytes(self.transport.tr_out))
     invariant(inv_W(self))
     invariant(inv_R(self))
@@ -197,6 +202,7 @@ def _():
     invariant(inv_U(self))
     invariant(inv_X(self))
     invariant(inv_Q(self))
+    invariant(conn_timers_ok(self))
     invariant(forall(lambda k: contains(W(self), k) == old(contains(W(self), k)) and W(self)[k] == old(W(self)[k])))
     invariant(forall(lambda k: contains(R(self), k) == old(contains(R(self), k)) and R(self)[k] == old(R(self)[k])))
     invariant(forall(lambda k: contains(S(self), k) == old(contains(S(self), k)) and S(self)[k] == old(S(self)[k])))
